@@ -23,6 +23,18 @@ def fuzz(workers, runs, **kw):
 NOT_CLAIMED = {}
 
 PROPS = {
+    "C05": dict(
+        level="exploration",
+        technique="metamorphic simulation-based property testing: the same generated TCP/WebSocket byte stream is delivered to a libcoap endpoint under generated and enumerated cut plans; delivered-message lists compared with each other and with the reference-encoded list",
+        level_text="Generated streams (all TCP length forms, extended tokens, WS frame forms, handshake variants) and cut plans incl. one byte per read, exact-buffer reads and cuts aimed inside "
+                   "every multi-byte header field; the enumerated tier walks 2- and 3-cut placements of short streams. The application's stack is overwritten between reads so that state kept in "
+                   "a caller's stack buffer cannot survive by accident.",
+        level_note="Trusted base: sim/sim.cc stream model (bytes become readable chunk by chunk, recv returns what is available), ref/refcodec.h, RFC 6455 framing in props/C05.cc. TLS/WSS framing is the same code above the TLS layer (C19 covers TLS).",
+        quick=rc(10, 700) + enum(6, 6000),
+        thorough=rc(12, 40000) + enum(4, 128000),
+        libs=["-lcrypto"],
+        **SIM,
+    ),
     "C10": dict(
         level="exploration",
         technique="simulation-based differential property testing: reference-encoded requests into a libcoap server with a generated resource table; executable decision table (admissible-outcome sets) + handler log oracle",
